@@ -36,6 +36,10 @@ pub struct Opts {
     pub max_iters: usize,
 }
 
+thread_local! {
+    static CKPT_DIR: RefCell<Option<String>> = RefCell::new(None);
+}
+
 pub fn fnv1a(s: &str) -> u64 {
     let mut h: u64 = 0xCBF29CE484222325;
     for b in s.bytes() {
@@ -193,6 +197,10 @@ pub fn run_program(line: &str, checkpoint: Option<&str>, opts: Opts) {
     if let Some(f) = checkpoint {
         b.checkpoint_file = Some(f.into());
     }
+    if let Some(name) = &prog.cfg.ckpt {
+        let dir = CKPT_DIR.with(|d| d.borrow().clone()).expect("harness: ckpt= needs --ckpt-dir");
+        b.checkpoint_file = Some(format!("{}/{}", dir, name).into());
+    }
     let iters = Rc::new(std::cell::Cell::new(0usize));
     let iters2 = iters.clone();
     LOG.with(|l| l.borrow_mut().clear());
@@ -297,7 +305,48 @@ fn main() {
     };
     // loom prints nothing itself, but panics would print to stderr for every failing program
     std::panic::set_hook(Box::new(|_| {}));
+    let ckpt_dir = args
+        .iter()
+        .position(|a| a == "--ckpt-dir")
+        .and_then(|i| args.get(i + 1))
+        .cloned();
+    CKPT_DIR.with(|d| *d.borrow_mut() = ckpt_dir.clone());
     match mode {
+        "threads" => {
+            // C16: the programs of stdin are distributed over N OS threads that run models concurrently;
+            // the records of each program are printed when all are done
+            let n: usize = args.get(2).and_then(|v| v.parse().ok()).unwrap_or(4);
+            let lines: Vec<String> = std::io::stdin()
+                .lock()
+                .lines()
+                .map(|l| l.unwrap().trim().to_string())
+                .filter(|l| !l.is_empty() && !l.starts_with('#'))
+                .collect();
+            let lines = std::sync::Arc::new(lines);
+            let mut handles = Vec::new();
+            for k in 0..n {
+                let lines = lines.clone();
+                let dir = ckpt_dir.clone();
+                handles.push(std::thread::spawn(move || {
+                    CKPT_DIR.with(|d| *d.borrow_mut() = dir);
+                    let mut res = Vec::new();
+                    for (i, l) in lines.iter().enumerate() {
+                        if i % n == k {
+                            run_program(l, None, opts);
+                            res.push(OUT.with(|o| o.borrow_mut().drain(..).collect::<Vec<_>>()));
+                        }
+                    }
+                    res
+                }));
+            }
+            for h in handles {
+                for prog in h.join().unwrap() {
+                    for l in prog {
+                        println!("{}", l);
+                    }
+                }
+            }
+        }
         "run" => {
             let stdin = std::io::stdin();
             for line in stdin.lock().lines() {
